@@ -121,7 +121,24 @@ func r15cmp(c *core.Ctx) {
 				} else if isK {
 					c.Fail(R, key, r.Pos(), "a return outside the inequality branches yields %d; only 0 (all octets equal) is allowed there", k)
 				} else {
-					c.SoftUndecided("os_memcmp: return value %s outside the recognised a<b / a>b branches", p.Path(r.Results[0]))
+					// an equality-only comparison (xor/or accumulation, difference of unsigned octets
+					// widened to int, …): its result is never negative, but Milenage_check decides SQN
+					// freshness on the sign (memcmp(rxSQN, ueSQN, 6) <= 0)
+					v := r.Results[0]
+					nonNeg := false
+					if cv, isConv := v.(*ssa.Convert); isConv {
+						if bt, isB := cv.X.Type().Underlying().(*types.Basic); isB && bt.Info()&types.IsUnsigned != 0 {
+							nonNeg = true // conversion of an unsigned value to a wider signed type
+						}
+					}
+					if iv := ia.At(v, b); iv.Known && iv.Lo >= 0 {
+						nonNeg = true
+					}
+					if nonNeg {
+						c.Fail(R, key, r.Pos(), "the result %s can never be negative: an equality-only comparison cannot tell 'less' from 'greater', yet Milenage_check takes the resynchronisation branch exactly when memcmp(rxSQN, ueSQN, 6) <= 0 — an AUTN whose SQN is lower than the UE's is accepted", clip(p.Path(v)))
+					} else {
+						c.SoftUndecided("os_memcmp: return value %s outside the recognised a<b / a>b branches", p.Path(v))
+					}
 				}
 			}
 		}
